@@ -143,8 +143,8 @@ CHECKS["C10"] = dict(
     quick=[dict(pkg="lvl", test="TestC10", shards=16, checks=30, timeout=1200, gomaxprocs=1),
            dict(pkg="lvl", test="TestC10Twin", shards=8, checks=12, timeout=1200, gomaxprocs=4),
            dict(pkg="lvl", test="TestC10Exh", shards=16, checks=1, timeout=1200, gomaxprocs=1, env={"VERIF_EXH": "all", "VERIF_NSHARDS": 16})],
-    thorough=[dict(pkg="lvl", test="TestC10", shards=16, checks=250, timeout=14400),
-              dict(pkg="lvl", test="TestC10Twin", shards=8, checks=80, timeout=14400, gomaxprocs=4),
+    thorough=[dict(pkg="lvl", test="TestC10", shards=16, checks=120, timeout=14400),
+              dict(pkg="lvl", test="TestC10Twin", shards=8, checks=40, timeout=14400, gomaxprocs=4),
               dict(pkg="lvl", test="TestC10Exh", shards=16, checks=1, timeout=1800, gomaxprocs=1, env={"VERIF_EXH": "all", "VERIF_NSHARDS": 16})],
 )
 
